@@ -56,6 +56,11 @@ def main():
         a, b = f"<!-- AUTO:{tag} -->", f"<!-- /AUTO:{tag} -->"
         if a in s and b in s:
             s = s[:s.index(a) + len(a)] + "\n" + fn() + "\n" + s[s.index(b):]
+    ab = J("tools/asbuilt.json")
+    for pid in sorted(props):
+        a, b = f"<!-- AUTO:ASBUILT:{pid} -->", f"<!-- /AUTO:ASBUILT:{pid} -->"
+        if a in s and b in s:
+            s = s[:s.index(a) + len(a)] + "\n  " + ab.get(pid, "(check not finished yet)") + "\n" + s[s.index(b):]
     open(p, "w").write(s)
     print("DESIGN.md tables regenerated")
 if __name__ == "__main__":
